@@ -328,7 +328,48 @@ theorem stores_only_new_response_as_built :
     history true true twoCaches [(1002, alias, false), (1003, target, false)] upperOnly =
       [(1002, alias, 0), (1003, target, 0)] := by decide
 
+/-! ### F17: the background refresh of a lazy cache runs on a copy of the context that may already carry a response -/
+
+/-- as built (`rBefore != r` in the refresh): whatever the copied context carries and whatever the plugins behind the
+cache are, the caches stay sound - the refresh stores only a response for the question the cache was asked -/
+theorem lazyRefresh_sound (i : Nat) (rest : List Plug) (c : Ctx) (w : World) (hs : Sound w) :
+    Sound (lazyRefresh true i rest c w) := by
+  unfold lazyRefresh
+  have hs1 : Sound { w with fresh := w.fresh + 2 } := hs
+  have h := run_post rest { c with resp := c.resp.map (fun r => { r with obj := w.fresh, qcell := w.fresh + 1 }) }
+    { w with fresh := w.fresh + 2 } hs1 (by
+      intro r hr
+      cases hc : c.resp with
+      | none => simp [hc] at hr
+      | some r0 => simp [hc] at hr; subst hr; simp)
+  refine (finish_sound i (c.qname, c.cd) _ _ h.sound ?_).2.2
+  intro r hr hne
+  by_cases hlt : r.obj < w.fresh + 2
+  · obtain ⟨r0, h0, hobj, _⟩ := h.old r hr hlt
+    exfalso
+    apply hne
+    have h0' : (c.resp.map (fun r => { r with obj := w.fresh, qcell := w.fresh + 1 })) = some r0 := h0
+    show Option.map (·.obj) (c.resp.map (fun r => { r with obj := w.fresh, qcell := w.fresh + 1 })) = some r.obj
+    rw [h0']
+    simp [hobj]
+  · exact (h.new r hr (by simp; omega)).1
+
+/-- the lower, lazy cache of `twoCaches` has a stale hit for the target while the context carries the upper cache's hit
+for the alias; behind the lower cache is only the `[!has_resp]` upstream -/
+def carriesAliasHit : Ctx :=
+  { qid := 7, qname := target, cd := false, resp := some { id := 7, qname := alias, rcode := 0, obj := 0, qcell := 1 } }
+def noEntries : World := { entries := [], fresh := 2 }
+
+/-- the refresh before F17 (`r != nil`): the alias answer is stored under the TARGET's key -/
+theorem lazy_refresh_stores_earlier_response_is_wrong :
+    (lazyRefresh false 1 [] carriesAliasHit noEntries).entries =
+      [{ cache := 1, key := (target, false), qname := alias, rcode := 0, shared := none }] := by decide
+
+/-- as built -/
+theorem lazy_refresh_as_built : (lazyRefresh true 1 [] carriesAliasHit noEntries).entries = [] := by decide
+
 theorem facts_guard_store :
-    Gen.Facts.c03CacheStoreCopiesQuestion = some true ∧ Gen.Facts.c03CacheStoresOnlyNewResponse = some true := by decide
+    Gen.Facts.c03CacheStoreCopiesQuestion = some true ∧ Gen.Facts.c03CacheStoresOnlyNewResponse = some true ∧
+      Gen.Facts.c03LazyUpdateStoresOnlyNewResponse = some true := by decide
 
 end Props.C03Store
